@@ -169,7 +169,20 @@ func c09Gen(c *caseCtx) *genReq {
 	if c.rng.Intn(2) == 0 {
 		o.allCons = 1
 	}
+	o.dupChosen = true
 	g := genRequest(c.rng, o)
+	if c.rng.Intn(12) == 0 {
+		// optional fields left out / given as null: whatever default the library fills in, it does not write it into the
+		// request (a request that is refused for it - Choquet wants "gain" spelled out - stays untouched as well)
+		crit := g.M["criteria"].([]interface{})
+		cr := crit[c.rng.Intn(len(crit))].(M)
+		if c.rng.Intn(2) == 0 {
+			delete(cr, "type")
+		} else {
+			cr["type"] = ""
+		}
+		c.count("criterion_type_left_out", 1)
+	}
 	// emphasis: heuristics with the current choice taken from choseToMake
 	if (method == "majorityHeuristic" || method == "satisfactionHeuristic") && c.rng.Intn(2) == 0 {
 		g.M["methodParameters"].(M)["currentChoice"] = g.chose[c.rng.Intn(len(g.chose))]
